@@ -45,6 +45,18 @@ P = {
  "C16": ("Seeded random compositions, tracks and bars (all keys, 14-72 meters, integral and rounding tick values, chords, rests in every position incl. empty containers, channels, velocities, instruments, tempo-carrying containers, bpm 4-1000, repeat 0-3) and a systematic key x meter sweep are written through all five file writers and MidiFile.get_midi_data(); the bytes are parsed by an independent strict SMF reader and the decoded events compared with the events computed from the score description (multiset per tick + per-pitch on/off alternation + instrument-before-note ordering). The VLQ encoder is compared with a reference encoder on a dense range and all power-of-two neighbourhoods (thorough: all 2^28 values).",
          "Own SMF parser (vlib/ref/smf.py) and event model (vlib/ref/midimodel.py); values with an exact x.5 tick length are not generated.",
          "translation validation by an independent decoder over Hypothesis-generated programs + exhaustive VLQ enumeration"),
+ "C02": ("All names with accidental strings up to length 5 (thorough 8) in every order x the 17 named constructors are enumerated against an own (interval number, semitones) table with the unmixed / at-most-six-accidentals clause, longer accidental strings sampled; all ordered pairs up to length 3 (thorough 6) for measure and the four consonance predicates with both include_fourths values.",
+         "Constructor table and arithmetic in vlib/ref/theory.py; unison constructors: normalisation asserted only where implied (DESIGN Int.).",
+         "bounded-exhaustive enumeration + Hypothesis PBT vs reference model"),
+ "C03": ("All in-domain ordered pairs of names with up to 2 (thorough 3) accidentals x long/short form are enumerated for number, quality and the shorthand inverse; names x 35 shorthands x up/down for letter, semitones and up-then-down restoration; Hypothesis lists for invert (value, fresh list, argument unchanged).",
+         "Expected names from own letter-distance/semitone arithmetic (theory.interval_long_name).",
+         "bounded-exhaustive enumeration + round trips + Hypothesis lists"),
+ "C04": ("All 30 keys (notes, signature, accidentals, relatives, Key object), signature numbers -20..20 plus arbitrary integers, thousands of candidate key strings (near misses of valid keys, Hypothesis text) for the rejection clauses, and all 30 x 35 x 6 diatonic steps are enumerated against an own key table; every get_notes query is asked cold and warm (memo transparency).",
+         "Key table and step patterns in vlib/ref/theory.py; empty string excluded.",
+         "bounded-exhaustive enumeration + Hypothesis text vs reference key table"),
+ "C17": ("Seeded random compositions restricted to velocities 1-127 and integral-tick values are written with write_Composition and read back with MIDI_to_Composition; compared per track on the flattened (ticks, pitch set) sequence, per-entry (pitch, channel, velocity), tempo, names, instrument numbers and, for single-key/meter tracks, key and meter of every bar; every key x meter systematically; bpm 4..1000 (thorough 7000) exhaustively; the VLQ reader on reference encodings (thorough: all 2^28); corrupted tags and format words must be rejected.",
+         "Expected flattened sequence from the score description (vlib/ref/midimodel.py); the writer's own correctness is C16's subject (files are pre-validated by the independent SMF reader).",
+         "round-trip property over Hypothesis-generated programs + exhaustive enumeration of tempo / VLQ / corruption domains"),
 }
 DEFAULT_NOTE = "Oracle = independent reference model under /verif/vlib/ref; bounds per DESIGN.md section 4."
 
